@@ -25,7 +25,9 @@ PROPERTY = "C15"
 RULE = ("Hypothesis draws dimension 2-4, a symmetric metric from a small "
         "grammar (diagonal entries sign*(D + sum a*f), off-diagonal entries "
         "sum a*f present with probability 1/2, f in {x/2, x^2/4, x*y/4, "
-        "1/(1+x^2), x/(2(1+y^2)), one sin(x[+y]) or exp(x)/8}; strictly "
+        "1/(1+x^2), x/(2(1+y^2)), one sin(x[+y]), exp(x)/8 or sqrt(x^2)/2}, "
+        "optionally one diagonal entry scaled by 1 + p/4 with a constant p "
+        "named like a quantity of the library (gxx, gyy, alpha, ...); strictly "
         "diagonally dominant on the box |x|<=2, so invertible, Lorentzian "
         "sign allowed in 4D), simplify in {True, False}, a request order "
         "(prefix of a permutation of the ten keys) and two rational points. "
